@@ -30,7 +30,8 @@ EXPLANATION = (
     "decoy name and a decoy to itself through protein_map.get(x, x); the "
     "five result columns are returned; the confidence code feeds the "
     "peptide-level table, its own columns, the Proteins object and the "
-    "rng. Nothing is cached across calls. NOT decided: which peptide wins "
+    "rng. Nothing is cached across calls. Also: read_fasta's maps, pairing and has_decoys flag (shared with C16b). "
+    "NOT decided: which peptide wins "
     "for given data.")
 TECHNIQUE = ("def-use term matching + regex-AST classification of the "
              "stripping patterns + sibling agreement (sort direction vs "
